@@ -35,6 +35,14 @@ def gen_case(case):
             t = t.replace("<svg ", f'<svg width="{r.choice([64, 100, 512])}" height="{r.choice([64, 100, 300])}" ', 1)
         if r.random() < 0.2:
             t = t.replace("<svg ", '<svg enable-background="new 0 0 10 10" ', 1)
+        if r.random() < 0.3:
+            # Illustrator-style root style: inherited paint properties around an enable-background declaration, used by
+            # shapes that carry no fill of their own
+            vb = m["viewBox"]
+            decl = [f"fill:#{r.randint(0, 0xFFFFFF):06x}", f"fill-opacity:{r.choice([0.5, 0.8, 1])}", "enable-background:new 0 0 128 128", f"opacity:{r.choice([1, 0.9])}"]
+            r.shuffle(decl)
+            t = t.replace("<svg ", '<svg style="' + ";".join(decl) + r.choice([";", ""]) + '" ', 1)
+            t = t.replace("</svg>", f'<path d="M{vb[0] + vb[2] * 0.1:.2f},{vb[1] + vb[3] * 0.6:.2f} h{vb[2] * 0.3:.2f} v{vb[3] * 0.3:.2f} z"/></svg>')
         srcs.append(t)
     seqs = svggen.sequences(r, len(srcs), long_names=False)
     return [{"svg": s, "codepoints": list(q)} for s, q in zip(srcs, seqs)], cfg
